@@ -128,6 +128,20 @@ CLAIMS["C13"] = {
     "note": "Necessary conditions only. " + _TB,
 }
 
+CLAIMS["C20"] = {
+    "text": "Decides the lifecycle clauses of C20: the database lock is taken before recovery reads or writes anything, "
+            "lives in the handle and is released by close and by a failed open; backup, copy and destroy release their lock "
+            "on every exit; ldb_lock_file refuses a second lock in the same process, registers the file id only after the OS "
+            "lock succeeded, closes the descriptor on every failure path; ldb_backup computes the live set and copies inside "
+            "the DB section in which no background call is scheduled, only with no latched error, only into the backup "
+            "directory; ldb_destroy removes only parsed names under the lock, LOCK file last after unlock; a comparator "
+            "mismatch is refused before any edit is applied or anything is written. Backup contents and concurrent writers "
+            "during backup are not decided.",
+    "design_ref": "DESIGN.md 5/C20",
+    "technique": "static analysis: acquire/release pairing automata on all exits, call-order and guard-dominance rules, critical-section identity",
+    "note": "Necessary conditions only. " + _TB,
+}
+
 _PENDING = ("check not built yet in this revision; the property is listed here so that it is not claimed "
             "without machinery (see DESIGN.md for the planned rules)")
 
